@@ -286,3 +286,13 @@ package mpt
 //@ may-panic
 //@ opt frame off
 //@ call MemCachedStore).Put requires[hashed] len(arg1) == 33 && forall(k, 0, 32, arg1[1+k] == hash.dsha(arg2)[k])
+
+// (C10, C11) Put of a key that extends a key held by a plain leaf: the new leaf is new to the
+// trie and gets its reference (and its extension, if any, its own), the old leaf stays where it was.
+//@ prop C10,C11
+//@ func (*Trie).putIntoLeaf
+//@ may-panic
+//@ opt frame off
+//@ opt callers trust
+//@ requires t != nil && t.refcount != nil && curr != nil
+//@ call newSubTrie requires[newleaf] arg2 == Node(v) && arg3
